@@ -23,6 +23,8 @@ CONSTANTS Pres,          \* initial conditions: subset of {"fresh","offerer","an
                          \* "avdc" (both); not part of the dynamics either
           Envs,          \* "ok" | "nobind" (no local socket can be bound: allowed calls may then be refused,
                          \* which the contract permits - and they must still be atomic); not part of the dynamics
+          MediaOps,      \* non-signaling calls that change what the next offer contains: subset of
+                         \* {"add_transceiver", "create_data_channel", "add_track"}
           LocalClasses,  \* description classes for set_local:  subset of DescClasses
           RemoteClasses, \* description classes for set_remote: subset of DescClasses
           MaxLen,        \* number of calls in a program
@@ -58,6 +60,7 @@ SetCalls(op, classes) ==
   {[op |-> op, t |-> t, d |-> d] : t \in Types \ {"rollback"}, d \in classes}
     \cup {[op |-> op, t |-> "rollback", d |-> "fresh"]}
 Calls == {Simple("create_offer"), Simple("create_answer"), Simple("close")}
+           \cup {Simple(op) : op \in MediaOps}
            \cup SetCalls("set_local", LocalClasses) \cup SetCalls("set_remote", RemoteClasses)
 
 Side(c) == IF c.op = "set_local" THEN "local" ELSE "remote"
@@ -68,6 +71,8 @@ Allowed(s, c) ==
   CASE c.op = "close"         -> TRUE
     [] c.op = "create_offer"  -> s = "Stable"
     [] c.op = "create_answer" -> s = "HaveRemoteOffer"
+    \* adding media is not a signaling call: the machine neither forbids it nor moves (it may be refused, e.g. when closed)
+    [] c.op \in MediaOps      -> TRUE
     [] OTHER                  -> <<s, Side(c), c.t>> \in DOMAIN Trans
 
 NextSig(s, c) ==
